@@ -908,7 +908,16 @@ func GenLayoutForced(r *zsimrt.Run, forced map[string]bool) *Layout {
 	if stress {
 		density = 4
 	}
-	if stress || g.chance("has-focus", 2, 3) {
+	forcedFocus := ""
+	for k, v := range forced {
+		if v && strings.HasPrefix(k, "focus:") {
+			forcedFocus = strings.TrimPrefix(k, "focus:")
+		}
+	}
+	if forcedFocus != "" {
+		g.focus = forcedFocus
+		L.Features = append(L.Features, "focus:"+g.focus)
+	} else if stress || g.chance("has-focus", 2, 3) {
 		for {
 			g.focus = focusPool[g.n("focus", len(focusPool))]
 			if !uniqueLists[g.focus] && g.focus != "x-ext" && g.focus != "network_mode" && g.focus != "scale" && g.focus != "container_name" {
@@ -1103,7 +1112,7 @@ func (g *G) options(L *Layout) {
 	o := &L.Opts
 	if g.on("options") {
 		o.SkipValidation = g.chance("o-sv", 1, 6)
-		o.SkipInterpolation = g.chance("o-si", 1, 6)
+		o.SkipInterpolation = g.chance("o-si", 1, 4)
 		o.SkipNormalization = g.chance("o-sn", 1, 5)
 		o.NoResolvePaths = g.chance("o-rp", 1, 4)
 		o.ConvertWindowsPaths = g.chance("o-cw", 1, 6)
@@ -1131,6 +1140,11 @@ func (g *G) options(L *Layout) {
 
 // addExtends rewires some services to extend bases in the same file or in
 // files of other directories (chains of 1..3).
+// attributes with more than one syntax or with merge rules of their own
+var refinable = map[string]bool{"depends_on": true, "environment": true, "labels": true, "ports": true, "volumes": true, "command": true, "entrypoint": true,
+	"healthcheck": true, "ulimits": true, "extra_hosts": true, "dns": true, "dns_search": true, "tmpfs": true, "sysctls": true, "logging": true,
+	"annotations": true, "env_file": true, "label_file": true, "expose": true, "cap_add": true, "cap_drop": true, "devices": true, "security_opt": true}
+
 func (g *G) addExtends(doc, svcs *Y, c *svcCtx, root string, density int) {
 	nb := 1 + g.n("nbasefiles", 2)
 	type baseRef struct{ file, svc string }
@@ -1189,6 +1203,23 @@ func (g *G) addExtends(doc, svcs *Y, c *svcCtx, root string, density int) {
 					s.Set("extends", Str(tgt))
 				} else {
 					s.Set("extends", Map().Set("service", Str(tgt)))
+				}
+				// an extending service is most interesting where it says something about what its base says
+				// too: re-draw (in whatever syntax comes up) some of the attributes the base defines
+				if ty := svcs.Get(tgt); ty != nil && ty.Kind == 1 {
+					cc := *c
+					cc.name = name
+					cc.others = append([]string(nil), svcs.Keys[:i]...)
+					for _, k := range append([]string(nil), ty.Keys...) {
+						if !refinable[k] || s.Get(k) != nil {
+							continue
+						}
+						if k == g.focus || g.chance("ext-refine", 1, 4) {
+							if v := g.attr(k, &cc); v != nil {
+								s.Set(k, v)
+							}
+						}
+					}
 				}
 				break
 			}
@@ -1254,7 +1285,7 @@ func (g *G) addIncludes(doc *Y, c *svcCtx, root string, density, depth int, take
 			if g.chance("inc-pd", 1, 2) {
 				m.Set("project_directory", Str(relTo(root, dir)))
 			}
-			if g.chance("inc-envfile", 1, 2) {
+			if g.chance("inc-envfile", 2, 3) {
 				ef := dir + "/inc_" + tag + ".env"
 				g.L.Files[ef] = "INCVAR=" + g.word("incv") + "\n"
 				if depth >= 2 {
